@@ -8,6 +8,9 @@
 //!        A<q>e<e><mode>  after(event e) mode as for F
 //!        U<q> suspend+await (resumer kept)   R resume   r drop the resumer
 //!        E<e> fire event   O<g> open gate   X<q> drop this program's handle of object q
+//!        I<q>k<k> pipe_in stream k into object q   J<q>k<k>d<d> pipe stream k through q (depth d, 0 = default); output kept by the caller
+//!        G<k>n<n> produce n items on stream k   H<k> end stream k   N<n> consume n outputs (0 = until the end)   K drop the output stream
+//!        Z<k> block until the pipe of stream k has released its input stream and closure
 //!        V<e> block until event e   W wait until every started panic has finished unwinding   P<q> every scheduling attempt on q must panic
 //! Body:  t touch | w<e> await event (future bodies) | g<g> block on gate | p panic | s<e> fire event | (op) nested op
 
@@ -34,15 +37,23 @@ pub enum Op {
     WaitEv(usize),
     AwaitUnwind,
     ExpectPanic(usize),
+    PipeIn(usize, usize),
+    Pipe(usize, usize, usize),
+    Produce(usize, usize),
+    CloseStream(usize),
+    Consume(usize),
+    DropStream,
+    AwaitRelease(usize),
 }
 
 #[derive(Clone, Debug, PartialEq)]
 pub struct Program { pub nq: usize, pub pool: usize, pub nev: usize, pub ngates: usize, pub callers: Vec<Vec<Op>> }
+impl Program { pub fn nstreams(&self) -> usize { self.callers.iter().flatten().map(|o| match o { Op::PipeIn(_, k) | Op::Pipe(_, k, _) | Op::Produce(k, _) | Op::CloseStream(k) | Op::AwaitRelease(k) => k + 1, _ => 0 }).max().unwrap_or(0) } }
 
 impl Op {
     pub fn obj(&self) -> Option<usize> {
         match self {
-            Op::Desync(q, _) | Op::Sync(q, _) | Op::TrySync(q, _) | Op::FutDesync(q, _, _) | Op::FutSync(q, _, _) | Op::After(q, _, _) | Op::Suspend(q) | Op::DropObj(q) | Op::ExpectPanic(q) => Some(*q),
+            Op::Desync(q, _) | Op::Sync(q, _) | Op::TrySync(q, _) | Op::FutDesync(q, _, _) | Op::FutSync(q, _, _) | Op::After(q, _, _) | Op::Suspend(q) | Op::DropObj(q) | Op::ExpectPanic(q) | Op::PipeIn(q, _) | Op::Pipe(q, _, _) => Some(*q),
             _ => None
         }
     }
@@ -83,6 +94,13 @@ pub fn fmt_op(o: &Op) -> String {
         Op::WaitEv(e) => format!("V{}", e),
         Op::AwaitUnwind => "W".into(),
         Op::ExpectPanic(q) => format!("P{}", q),
+        Op::PipeIn(q, k) => format!("I{}k{}", q, k),
+        Op::Pipe(q, k, d) => format!("J{}k{}d{}", q, k, d),
+        Op::Produce(k, n) => format!("G{}n{}", k, n),
+        Op::CloseStream(k) => format!("H{}", k),
+        Op::Consume(n) => format!("N{}", n),
+        Op::DropStream => "K".into(),
+        Op::AwaitRelease(k) => format!("Z{}", k),
     }
 }
 impl Program {
@@ -150,6 +168,7 @@ fn parse_body(cs: &[char], i: &mut usize) -> Result<Vec<Prim>, String> {
     }
     Ok(b)
 }
+fn expect_ch(cs: &[char], i: &mut usize, c: char) -> Result<(), String> { if *i < cs.len() && cs[*i] == c { *i += 1; Ok(()) } else { Err(format!("{} expected", c)) } }
 fn parse_op(cs: &[char], i: &mut usize) -> Result<Op, String> {
     if *i >= cs.len() { return Err("op expected".into()); }
     let c = cs[*i]; *i += 1;
@@ -169,6 +188,13 @@ fn parse_op(cs: &[char], i: &mut usize) -> Result<Op, String> {
         'V' => Op::WaitEv(parse_num(cs, i)?),
         'W' => Op::AwaitUnwind,
         'P' => Op::ExpectPanic(parse_num(cs, i)?),
+        'I' => { let q = parse_num(cs, i)?; expect_ch(cs, i, 'k')?; Op::PipeIn(q, parse_num(cs, i)?) }
+        'J' => { let q = parse_num(cs, i)?; expect_ch(cs, i, 'k')?; let k = parse_num(cs, i)?; expect_ch(cs, i, 'd')?; Op::Pipe(q, k, parse_num(cs, i)?) }
+        'G' => { let k = parse_num(cs, i)?; expect_ch(cs, i, 'n')?; Op::Produce(k, parse_num(cs, i)?) }
+        'H' => Op::CloseStream(parse_num(cs, i)?),
+        'N' => Op::Consume(parse_num(cs, i)?),
+        'K' => Op::DropStream,
+        'Z' => Op::AwaitRelease(parse_num(cs, i)?),
         _ => return Err(format!("bad op {}", c))
     })
 }
@@ -248,6 +274,52 @@ pub fn generate_panic(r: &mut Rng) -> Program {
     let mut hc = vec![Op::AwaitUnwind]; let n2 = 1 + r.below(3); hc.extend(healthy(r, n2));
     if ctxk < 4 { callers.push(hc); }
     Program { nq, pool, nev, ngates, callers }
+}
+
+/// pipe_in scenarios (C11): one stream into object 0, a producer thread with an arrival pattern, concurrent operations on the
+/// same object, optionally the last owner dropped mid-stream (the stream ends afterwards, which is the 'first stream event')
+pub fn generate_pipein(r: &mut Rng) -> Program {
+    let pool = 1 + r.below(3);
+    let drop_mid = r.chance(1, 4);
+    let mut c0 = vec![Op::PipeIn(0, 0)];
+    let mut prod = vec![];
+    let bursts = 1 + r.below(3);
+    for _ in 0..bursts { prod.push(Op::Produce(0, r.below(4))); if r.chance(1, 3) { prod.push(Op::Desync(1, vec![Prim::Touch])); } }
+    let mut conc = vec![];
+    for _ in 0..r.below(4) { conc.push(match r.below(3) { 0 => Op::Sync(0, vec![Prim::Touch]), 1 => Op::TrySync(0, vec![Prim::Touch]), _ => Op::Desync(0, vec![Prim::Touch]) }); }
+    if drop_mid { c0.push(Op::Produce(0, 1)); c0.push(Op::DropObj(0)); }
+    if r.chance(1, 2) { c0.push(Op::Sync(1, vec![Prim::Touch])); }
+    prod.push(Op::CloseStream(0));
+    c0.push(Op::AwaitRelease(0));
+    Program { nq: 2, pool, nev: 0, ngates: 0, callers: vec![c0, prod, conc] }
+}
+
+/// pipe scenarios (C12, C16): stream 0 through object 0 with a buffer depth, a producer thread, the consumer reading to the end
+/// or dropping the output stream at some point with the input staying silent afterwards
+pub fn generate_pipe(r: &mut Rng, drop_stream: bool) -> Program {
+    let pool = 1 + r.below(3);
+    let depth = if r.chance(1, 3) { 0 } else { 1 + r.below(5) };
+    let mut c0 = vec![Op::Pipe(0, 0, depth)];
+    let mut prod = vec![];
+    let total: usize;
+    if drop_stream {
+        let a = r.below(4); total = a;
+        prod.push(Op::Produce(0, a));
+        if a > 0 && r.chance(1, 2) { c0.push(Op::Consume(1 + r.below(a))); }
+        c0.push(Op::DropStream);
+        c0.push(Op::AwaitRelease(0));
+    } else {
+        let bursts = 1 + r.below(3); let mut t = 0;
+        for _ in 0..bursts { let n = r.below(5); t += n; prod.push(Op::Produce(0, n)); if r.chance(1, 3) { prod.push(Op::Desync(1, vec![Prim::Touch])); } }
+        total = t;
+        prod.push(Op::CloseStream(0));
+        c0.push(Op::Consume(0));
+        c0.push(Op::AwaitRelease(0));
+    }
+    let _ = total;
+    let mut conc = vec![];
+    for _ in 0..r.below(3) { conc.push(match r.below(2) { 0 => Op::Sync(0, vec![Prim::Touch]), _ => Op::Desync(0, vec![Prim::Touch]) }); }
+    Program { nq: 2, pool, nev: 0, ngates: 0, callers: vec![c0, prod, conc] }
 }
 
 pub fn profile(name: &str) -> Option<Profile> {
